@@ -2,7 +2,7 @@
    rd f (pr w ++ rest) = Some (norm w, rest) for every enumeration w of a printable value. *)
 From Arrai Require Import Base.Val Spec.SetAlg Eval.Interp Rep.Less Sys.Escape Sys.Printer Sys.Reader.
 From Arrai Require Import Proofs.ValOrder Proofs.CanonP Proofs.PermP.
-From Coq Require Import Permutation.
+From Coq Require Import Permutation ZifyBool.
 
 (* ---------- small facts ---------- *)
 Lemma nm_eqb_eq a b : name_eqb a b = true -> a = b.
@@ -43,11 +43,18 @@ Proof.
   unfold pr_member. rewrite pr_tup. rewrite <- (pr_attrs_fix a). reflexivity.
 Qed.
 
+(* everything below holds for both domains: [ball = false] leaves the sequence representations out,
+   [ball = true] is printable_all *)
+Section Gen.
+Variable ball : bool.
+Notation printable := (printable_gen ball).
+Notation set_ok := (set_ok_gen ball).
+
 Lemma printable_tup l :
   printable (VTup l) = sugar_ok l && negb (nested_neg l) &&
                        forallb (fun p => name_ok (fst p) && printable (snd p)) l.
 Proof.
-  unfold printable. cbn [printable_gen]. f_equal. induction l as [|[n x] l IH]; [reflexivity|].
+  cbn [printable_gen]. f_equal. induction l as [|[n x] l IH]; [reflexivity|].
   cbn [forallb fst snd]. rewrite IH. reflexivity.
 Qed.
 
@@ -545,7 +552,7 @@ Lemma rd_dict l rest :
 Proof.
   intros Sh Hl Hok Hp.
   destruct (sugar_members l ShDict n_value Sh) as [Hne Hm]; [tauto|].
-  rewrite pr_vset in *. unfold pr_set in *. unfold set_ok, set_ok_gen in Hok. rewrite Sh in *.
+  rewrite pr_vset in *. unfold pr_set in *. unfold set_ok_gen in Hok. rewrite Sh in *.
   assert (E1 : map (fun p => part1 p ++ TColon :: part2 p) (map pr_member l) = map pr_pair (map mem_pair l)).
   { rewrite !map_map. apply map_ext_in. intros m Hin. destruct (Hm m Hin) as (k & x & ->). reflexivity. }
   assert (E2 : map norm l = map entry (map norm_pair (map mem_pair l))).
@@ -598,7 +605,7 @@ Proof.
   apply shape_bucket_inv in Hsb. cbn in Hsb. destruct Hsb as [-> _].
   assert (Hm : forall m, In m l -> exists a, m = VTup a /\ map fst a = ns).
   { intros m Hm. rewrite Forall_forall in Hb. apply bucket_rel_inv. apply Hb. exact Hm. }
-  rewrite pr_vset in *. unfold pr_set in *. unfold set_ok, set_ok_gen in Hok. rewrite Sh in *.
+  rewrite pr_vset in *. unfold pr_set in *. unfold set_ok_gen in Hok. rewrite Sh in *.
   assert (Hns : ns <> []) by (destruct ns; [discriminate Hok | discriminate]).
   assert (E1 : map (fun p => TLPar :: commas (map snd (snd p)) ++ [TRPar]) (map pr_member l) = map pr_row (map mem_attrs l)).
   { rewrite !map_map. apply map_ext_in. intros m Hin. destruct (Hm m Hin) as (a & -> & _).
@@ -633,6 +640,193 @@ Qed.
 
 End Main2.
 
+(* ---------- the sequence representations ---------- *)
+Definition mk_sc (nm : name) (p : Z * Z) : val := vpair nm (vint (fst p)) (vint (snd p)).
+Definition sc_items (l : list val) : list (Z * Z) := map (fun m => (mem_index m, mem_scalar m)) l.
+Definition arr_items (l : list val) : list (Z * val) := map (fun m => (mem_index m, mem_val m)) l.
+
+Lemma zsort_nil_inv {A} (l : list (Z * A)) : zsort l = [] -> l = [].
+Proof. intros E. assert (H := zsort_perm l). rewrite E in H. apply Permutation_nil. exact H. Qed.
+
+Lemma scalar_common l s nm :
+  set_shape l = s -> (s = ShStr /\ nm = n_char) \/ (s = ShBytes /\ nm = n_byte) ->
+  set_ok l = true -> forallb printable l = true ->
+  exists i0 c0 cs', zsort (sc_items l) = (i0, c0) :: cs' /\
+    VSet (vsort (vseq_from nm i0 (map vint (c0 :: map snd cs')))) = norm (VSet l) /\
+    (nm = n_byte -> Forall (fun b => 0 <= b <= 255) (c0 :: map snd cs')).
+Proof.
+  intros Sh Hs Hok Hp.
+  destruct (sugar_members l s nm Sh) as [Hne Hm]; [tauto|].
+  assert (Hpt : forall m, In m l -> exists i c, m = mk_sc nm (i, c) /\ (nm = n_byte -> 0 <= c <= 255)).
+  { intros m Hin. destruct (Hm m Hin) as (k & x & ->).
+    assert (Hpm := forallb_In _ _ _ Hp Hin). rewrite printable_tup in Hpm.
+    apply andb_true_iff in Hpm as [Hpm _]. apply andb_true_iff in Hpm as [Hsg _].
+    destruct Hs as [[_ ->]|[_ ->]].
+    - change (sugar_ok [(n_at, k); (n_char, x)]) with (is_int k && is_rune x) in Hsg.
+      apply andb_true_iff in Hsg as [Hk Hx].
+      destruct k as [[i|?]|?|?]; cbn in Hk; try discriminate Hk.
+      destruct x as [[c|?]|?|?]; cbn [is_rune] in Hx; try discriminate Hx.
+      exists i, c. split; [reflexivity|]. intros E. discriminate E.
+    - change (sugar_ok [(n_at, k); (n_byte, x)]) with (is_int k && is_byte x) in Hsg.
+      apply andb_true_iff in Hsg as [Hk Hx].
+      destruct k as [[i|?]|?|?]; cbn in Hk; try discriminate Hk.
+      destruct x as [[c|?]|?|?]; cbn [is_byte] in Hx; try discriminate Hx.
+      exists i, c. split; [reflexivity|]. intros _. lia. }
+  assert (Hinc : increasing true (map fst (zsort (sc_items l))) = true).
+  { unfold set_ok_gen in Hok. destruct Hs as [[-> _]|[-> _]]; rewrite Sh in Hok;
+      apply andb_true_iff in Hok as [_ Hok]; exact Hok. }
+  assert (El : l = map (mk_sc nm) (sc_items l)).
+  { unfold sc_items. rewrite map_map. rewrite <- (map_id l) at 1. apply map_ext_in. intros m Hin.
+    destruct (Hpt m Hin) as (i & c & -> & _). reflexivity. }
+  assert (En : map norm l = l).
+  { rewrite <- (map_id l) at 2. apply map_ext_in. intros m Hin. destruct (Hpt m Hin) as (i & c & -> & _).
+    clear - Hs. destruct Hs as [[_ ->]|[_ ->]]; reflexivity. }
+  assert (Hr : nm = n_byte -> Forall (fun p : Z * Z => 0 <= snd p <= 255) (sc_items l)).
+  { intros E. apply Forall_forall. intros p Hin. unfold sc_items in Hin. apply in_map_iff in Hin as (m & <- & Hin).
+    destruct (Hpt m Hin) as (i & c & -> & Hc). cbn. apply Hc. exact E. }
+  remember (sc_items l) as items eqn:Ei.
+  destruct (zsort items) as [|[i0 c0] cs'] eqn:Ez.
+  { apply zsort_nil_inv in Ez. subst items. rewrite Ez in El. cbn in El. congruence. }
+  exists i0, c0, cs'. split; [reflexivity|]. split.
+  - cbn [map fst] in Hinc. cbn [map vseq_from]. rewrite (contig_seq nm cs' i0 Hinc).
+    change (vpair nm (vint i0) (vint c0) :: map (fun p => vpair nm (vint (fst p)) (vint (snd p))) cs')
+      with (map (mk_sc nm) ((i0, c0) :: cs')).
+    rewrite <- Ez. cbn [norm]. rewrite En. f_equal. rewrite El at 1.
+    apply vsort_perm. apply Permutation_map. apply zsort_perm.
+  - intros E. specialize (Hr E).
+    assert (Hz : Forall (fun p : Z * Z => 0 <= snd p <= 255) ((i0, c0) :: cs')).
+    { rewrite <- Ez. eapply Permutation_Forall; [apply Permutation_sym; apply zsort_perm | exact Hr]. }
+    change (c0 :: map snd cs') with (map snd ((i0, c0) :: cs')). apply Forall_map. exact Hz.
+Qed.
+
+Lemma rd_str f l rest :
+  set_shape l = ShStr -> set_ok l = true -> forallb printable l = true ->
+  rd (S f) (pr (VSet l) ++ rest) = Some (norm (VSet l), rest).
+Proof.
+  intros Sh Hok Hp.
+  destruct (scalar_common l ShStr n_char Sh) as (i0 & c0 & cs' & Ez & Ev & _); [tauto | exact Hok | exact Hp |].
+  rewrite pr_vset. unfold pr_set. rewrite Sh.
+  change (map (fun m => (mem_index m, mem_scalar m)) l) with (sc_items l). rewrite Ez.
+  unfold pr_string. rewrite <- app_assoc. rewrite rd_S_seq by exact I.
+  cbn [app rd_seq]. change (map snd ((i0, c0) :: cs')) with (c0 :: map snd cs'). unfold mk_set. rewrite Ev. reflexivity.
+Qed.
+
+Lemma utf8_enc_renderable bs : forallb renderable bs = true -> utf8_enc bs = bs.
+Proof.
+  induction bs as [|b bs IH]; [reflexivity|]. cbn [forallb]. intros H. apply andb_true_iff in H as [Hb Hbs].
+  unfold utf8_enc in *. cbn [flat_map]. rewrite IH by exact Hbs.
+  assert (Hr : 0 <= b < 128) by (unfold renderable in Hb; lia).
+  unfold utf8_enc1, valid_rune.
+  destruct ((0 <=? b) && (b <? 55296) || (57344 <=? b) && (b <=? 1114111)) eqn:V; [|lia].
+  destruct (b <? 128) eqn:L; [reflexivity | lia].
+Qed.
+
+Lemma rd_bytes_spec bs : forall rest, bs <> [] -> Forall (fun b => 0 <= b <= 255) bs ->
+  rd_bytes (commas (map (fun b => [TNum (NInt b)]) bs) ++ TRBytes :: rest) = Some (bs, rest).
+Proof.
+  induction bs as [|b bs IH]; intros rest Hne Hr; [congruence|].
+  inversion Hr as [|? ? Hb Hbs]; subst.
+  assert (Eb : (0 <=? b) && (b <=? 255) = true) by lia.
+  destruct bs as [|c bs'].
+  - cbn [map commas app rd_bytes]. rewrite Eb. reflexivity.
+  - cbn [map]. rewrite commas_cons. cbn [app rd_bytes]. rewrite Eb.
+    change ([TNum (NInt c)] :: map (fun b => [TNum (NInt b)]) bs') with (map (fun b => [TNum (NInt b)]) (c :: bs')).
+    rewrite IH; [reflexivity | discriminate | exact Hbs].
+Qed.
+
+Lemma rd_seq_bytes rv off ts :
+  match ts with TStr _ :: _ => False | _ => True end ->
+  rd_seq rv off (TLBytes :: ts) =
+  match rd_bytes ts with Some (bs, r) => Some (mk_set (vseq_from n_byte off (map vint bs)), r) | None => None end.
+Proof. destruct ts as [|t ts]; [reflexivity|]. destruct t; try contradiction; reflexivity. Qed.
+
+Lemma rd_bytearr f l rest :
+  set_shape l = ShBytes -> set_ok l = true -> forallb printable l = true ->
+  rd (S f) (pr (VSet l) ++ rest) = Some (norm (VSet l), rest).
+Proof.
+  intros Sh Hok Hp.
+  destruct (scalar_common l ShBytes n_byte Sh) as (i0 & c0 & cs' & Ez & Ev & Hr); [tauto | exact Hok | exact Hp |].
+  specialize (Hr eq_refl).
+  rewrite pr_vset. unfold pr_set. rewrite Sh.
+  change (map (fun m => (mem_index m, mem_scalar m)) l) with (sc_items l). rewrite Ez.
+  unfold pr_bytes. change (map snd ((i0, c0) :: cs')) with (c0 :: map snd cs'). rewrite <- app_assoc. rewrite rd_S_seq by exact I.
+  destruct (forallb renderable (c0 :: map snd cs')) eqn:R.
+  - cbn [app rd_seq]. rewrite utf8_enc_renderable by exact R. unfold mk_set. rewrite Ev. reflexivity.
+  - cbn [app]. rewrite <- app_assoc. cbn [app]. rewrite rd_seq_bytes.
+    + rewrite rd_bytes_spec; [|discriminate | exact Hr]. unfold mk_set. rewrite Ev. reflexivity.
+    + destruct (map snd cs'); exact I.
+Qed.
+
+Lemma pr_cells_len_in p cs : forall prev, In p cs -> (length (pr (snd p)) <= length (pr_cells prev (map pr_cell cs)))%nat.
+Proof.
+  induction cs as [|[i x] cs IH]; intros prev Hin; [destruct Hin|].
+  cbn [map pr_cell pr_cells fst snd]. rewrite !app_length. destruct Hin as [<-|Hin]; [cbn [snd]; lia|].
+  specialize (IH i Hin). lia.
+Qed.
+
+Lemma combine_map_same {A B C} (g : A -> B) (h : A -> C) l : combine (map g l) (map h l) = map (fun m => (g m, h m)) l.
+Proof. induction l as [|m l IH]; [reflexivity|]. cbn. f_equal. exact IH. Qed.
+
+Section MainArr.
+Variable f : nat.
+Hypothesis IH : forall w rest, (length (pr w) <= f)%nat -> printable w = true -> follow_ok rest ->
+                               rd f (pr w ++ rest) = Some (norm w, rest).
+
+Lemma rd_arr l rest :
+  set_shape l = ShArr -> (length (pr (VSet l)) <= S f)%nat -> set_ok l = true -> forallb printable l = true ->
+  rd (S f) (pr (VSet l) ++ rest) = Some (norm (VSet l), rest).
+Proof.
+  intros Sh Hl Hok Hp.
+  destruct (sugar_members l ShArr n_item Sh) as [Hne Hm]; [tauto|].
+  assert (Hpt : forall m, In m l -> exists i x, m = VTup [(n_at, VNum (NInt i)); (n_item, x)] /\ printable x = true).
+  { intros m Hin. destruct (Hm m Hin) as (k & x & ->).
+    assert (Hpm := forallb_In _ _ _ Hp Hin). rewrite printable_tup in Hpm.
+    apply andb_true_iff in Hpm as [Hpm Hfa]. apply andb_true_iff in Hpm as [Hsg _].
+    change (sugar_ok [(n_at, k); (n_item, x)]) with (is_int k) in Hsg.
+    destruct k as [[i|?]|?|?]; cbn in Hsg; try discriminate Hsg.
+    cbn [forallb fst snd] in Hfa. apply andb_true_iff in Hfa as [_ Hfa]. apply andb_true_iff in Hfa as [Hfa _].
+    apply andb_true_iff in Hfa as [_ Hx]. eauto. }
+  assert (E1 : combine (map mem_index l) (map part2 (map pr_member l)) = map (on_snd pr) (arr_items l)).
+  { rewrite map_map, combine_map_same. unfold arr_items. rewrite map_map. apply map_ext_in. intros m Hin.
+    destruct (Hpt m Hin) as (i & x & -> & _). reflexivity. }
+  assert (E2 : map norm l = map norm_cell (arr_items l)).
+  { unfold arr_items. rewrite map_map. apply map_ext_in. intros m Hin. destruct (Hpt m Hin) as (i & x & -> & _). reflexivity. }
+  assert (Hinc : increasing false (map fst (zsort (arr_items l))) = true).
+  { unfold set_ok_gen in Hok. rewrite Sh in Hok. apply andb_true_iff in Hok as [_ Hok].
+    replace (map (fun m => (mem_index m, tt)) l) with (map (on_snd (fun _ : val => tt)) (arr_items l)) in Hok
+      by (unfold arr_items; rewrite map_map; reflexivity).
+    rewrite zsort_map, map_fst_on_snd in Hok. exact Hok. }
+  assert (Hitems : forall p, In p (arr_items l) -> printable (snd p) = true).
+  { intros p Hin. unfold arr_items in Hin. apply in_map_iff in Hin as (m & <- & Hin).
+    destruct (Hpt m Hin) as (i & x & -> & Hx). exact Hx. }
+  rewrite pr_vset in *. unfold pr_set in *. rewrite Sh in *. rewrite E1, zsort_map in *.
+  destruct (zsort (arr_items l)) as [|[i0 x0] cs'] eqn:Ez.
+  { apply zsort_nil_inv in Ez. unfold arr_items in Ez. apply map_eq_nil in Ez. congruence. }
+  assert (Hsub : forall p, In p ((i0, x0) :: cs') -> printable (snd p) = true).
+  { intros p Hin. apply Hitems. eapply Permutation_in; [apply zsort_perm|]. rewrite Ez. exact Hin. }
+  cbn [map] in *. unfold on_snd at 1 in Hl. unfold on_snd at 1. cbn [fst snd] in *.
+  change (map (on_snd pr) cs') with (map pr_cell cs') in *.
+  unfold pr_array in *. rewrite app_length in Hl. cbn [length] in Hl. rewrite !app_length in Hl. cbn [length] in Hl.
+  cbn [incr_from map fst] in Hinc.
+  assert (Hincr : incr_from i0 cs') by (apply increasing_incr; exact Hinc).
+  rewrite <- app_assoc. rewrite rd_S_seq by exact I.
+  cbn [app]. rewrite <- !app_assoc. cbn [app].
+  assert (Hx0 : rd f (pr x0 ++ pr_cells i0 (map pr_cell cs') ++ TRBrack :: rest)
+                = Some (norm x0, pr_cells i0 (map pr_cell cs') ++ TRBrack :: rest)).
+  { apply IH; [lia | apply (Hsub (i0, x0)); left; reflexivity | apply (pr_cells_follow (rd f)); exact Hincr]. }
+  destruct (pr_head x0) as (t & ts & E & Ht). rewrite E in Hx0 |- *. cbn [app] in Hx0 |- *.
+  rewrite rd_seq_arr by exact Ht. unfold rd_arr_gen. rewrite Hx0.
+  erewrite rd_cells_spec; [ | exact Hincr | | ].
+  - unfold mk_set. cbn [norm]. rewrite E2. do 3 f_equal.
+    change (vpair n_item (vint i0) (norm x0) :: map norm_cell cs') with (map norm_cell ((i0, x0) :: cs')).
+    rewrite <- Ez. apply vsort_perm. apply Permutation_map. apply zsort_perm.
+  - intros p Hin. apply (IH_reads f IH); [|apply Hsub; right; exact Hin].
+    assert (H := pr_cells_len_in p cs' i0 Hin). lia.
+  - rewrite app_length. cbn [length]. lia.
+Qed.
+
+End MainArr.
+
 (* ---------- the round trip ---------- *)
 Theorem rd_pr : forall f w rest,
   (length (pr w) <= f)%nat -> printable w = true -> follow_ok rest ->
@@ -656,21 +850,36 @@ Proof.
             cbn in Sh. destruct (forallb is_ident names); discriminate. }
         subst l. destruct rest as [|t rest]; [reflexivity|]. destruct t; try contradiction; reflexivity.
       * apply rd_generic; assumption.
-      * unfold set_ok, set_ok_gen in Hok. rewrite Sh in Hok. discriminate.
-      * unfold set_ok, set_ok_gen in Hok. rewrite Sh in Hok. discriminate.
-      * unfold set_ok, set_ok_gen in Hok. rewrite Sh in Hok. discriminate.
+      * apply rd_str; assumption.
+      * apply rd_bytearr; assumption.
+      * apply rd_arr; assumption.
       * apply rd_dict; assumption.
       * eapply rd_relation; eassumption.
 Qed.
 
+End Gen.
+
 Theorem read_print_tokens w rest :
   printable w = true -> follow_ok rest -> read_tokens (pr w ++ rest) = Some (norm w, rest).
 Proof.
-  intros Hp Hf. unfold read_tokens. apply rd_pr; [rewrite app_length; lia | exact Hp | exact Hf].
+  intros Hp Hf. unfold read_tokens. apply (rd_pr false); [rewrite app_length; lia | exact Hp | exact Hf].
 Qed.
 
 Theorem read_print_canonical v : Canon v -> printable v = true -> read_all (pr v) = Some v.
 Proof.
   intros Hc Hp. unfold read_all. rewrite <- (app_nil_r (pr v)). rewrite read_print_tokens by (assumption || exact I).
+  rewrite Hc. reflexivity.
+Qed.
+
+(* the same for the whole domain: strings, byte arrays and arrays (offsets, holes) included *)
+Theorem read_print_tokens_all w rest :
+  printable_all w = true -> follow_ok rest -> read_tokens (pr w ++ rest) = Some (norm w, rest).
+Proof.
+  intros Hp Hf. unfold read_tokens. apply (rd_pr true); [rewrite app_length; lia | exact Hp | exact Hf].
+Qed.
+
+Theorem read_print_canonical_all v : Canon v -> printable_all v = true -> read_all (pr v) = Some v.
+Proof.
+  intros Hc Hp. unfold read_all. rewrite <- (app_nil_r (pr v)). rewrite read_print_tokens_all by (assumption || exact I).
   rewrite Hc. reflexivity.
 Qed.
